@@ -512,7 +512,7 @@ pub fn main(args: &Args) -> i32 {
     let states: Mutex<HashSet<u64>> = Mutex::new(HashSet::new());
     let (transitions, histories, dead, failed_last) = (AtomicU64::new(0), AtomicU64::new(0), AtomicU64::new(0), AtomicU64::new(0));
     let total = enumerate::count_strings(alpha.len(), depth);
-    vcommon::par_for(total, 64, |n| {
+    osrv::par_items(total, 64, &report, &states, |n, acc| {
         let mut idx = vec![];
         enumerate::nth_string(alpha.len(), n, &mut idx);
         let h: Vec<Op> = idx
@@ -526,28 +526,28 @@ pub fn main(args: &Args) -> i32 {
         match run_history(&h, false) {
             Exec::DeadPrefix(_, _) => {
                 dead.fetch_add(1, Relaxed);
-                report.outcome("extends a history whose last operation panicked (pruned)");
+                acc.outcome("extends a history whose last operation panicked (pruned)");
             }
             Exec::LastFailed(why) => {
                 failed_last.fetch_add(1, Relaxed);
-                report.eval(1);
+                acc.evals += 1;
                 histories.fetch_add(1, Relaxed);
                 transitions.fetch_add(h.len() as u64, Relaxed);
-                report.outcome(&format!(
+                acc.outcome(&format!(
                     "{} -> {} (registry panics are C24's subject; world discarded)",
                     h.last().map(|o| o.kind()).unwrap_or(""),
                     why.split(':').next().unwrap_or("")
                 ));
             }
             Exec::Last { history, pre, mirror_pre, ret, post, mirror_post } => {
-                report.eval(1);
+                acc.evals += 1;
                 histories.fetch_add(1, Relaxed);
                 transitions.fetch_add(history.len() as u64, Relaxed);
                 let (vs, class) = check(&history, &pre, &mirror_pre, &ret, &post, &mirror_post);
-                report.outcome(&class);
+                acc.outcome(&class);
                 let canon = |a: &After| hash64(&(a.listing.clone(), a.vals.keys().cloned().collect::<Vec<_>>()));
-                states.lock().unwrap().insert(canon(&post));
-                report.nontrivial(hash64(&(
+                acc.states.push(canon(&post));
+                acc.nontrivial.push(hash64(&(
                     canon(&pre),
                     history.last().map(|o| (o.kind(), o.path())),
                     canon(&post),
